@@ -85,12 +85,13 @@ if rs:
     ok = fails_b and pass_c
 else:
     # script demos: README documents how; run `<script> ` with the worktree as cwd / first argument
-    s = scripts[0]
+    pref = [x for x in scripts if x.startswith("demo")]
+    s = (pref or scripts)[0]
     runner = "bash" if s.endswith(".sh") else "python3"
-    rc_b, out_b = sh("%s %s %s 2>&1 | tail -40; exit ${PIPESTATUS[0]}" % (runner, os.path.join(sdir, s), wt))
+    rc_b, out_b = sh("bash -o pipefail -c '%s %s %s 2>&1 | tail -40'" % (runner, os.path.join(sdir, s), wt))
     log["demo_with_mutation"] = {"rc": rc_b, "tail": out_b[-800:]}
     clean()
-    rc_c, out_c = sh("%s %s %s 2>&1 | tail -40; exit ${PIPESTATUS[0]}" % (runner, os.path.join(sdir, s), wt))
+    rc_c, out_c = sh("bash -o pipefail -c '%s %s %s 2>&1 | tail -40'" % (runner, os.path.join(sdir, s), wt))
     log["demo_without_mutation"] = {"rc": rc_c, "tail": out_c[-800:]}
     clean()
     ok = rc_b != 0 and rc_c == 0
